@@ -34,7 +34,7 @@ def strategy(big):
     from hypothesis import strategies as st
     from checks.wsdrive import BOUNDARY_LENS, FRAG_SIZES
 
-    lens = st.one_of(st.sampled_from(BOUNDARY_LENS), st.integers(0, 300), st.integers(0, 70000), st.integers(0, big))
+    lens = st.one_of(st.sampled_from(BOUNDARY_LENS), st.integers(0, 300), st.integers(0, 70000), st.integers(0, big), st.sampled_from([600, 1100, 2500, 5000, 20000]))
     frag = st.sampled_from([0, 0] + FRAG_SIZES)
 
     @st.composite
@@ -42,7 +42,7 @@ def strategy(big):
         n = draw(lens)
         api = draw(st.sampled_from(["msg", "msg", "frames", "stream", "prepared", "chop"]))
         m = {"len": n, "bin": draw(st.booleans()), "salt": draw(st.integers(0, 9999)), "api": api,
-             "kind": draw(st.sampled_from(["rand", "comp"])), "in_onopen": draw(st.integers(0, 9)) == 0}
+             "kind": draw(st.sampled_from(["rand", "comp", "dup"])), "in_onopen": draw(st.integers(0, 9)) == 0}
         if api == "msg":
             f = draw(frag)
             if f and n // f > 3000:
@@ -81,7 +81,8 @@ def strategy(big):
             if o["autoFragmentSize"] and total // o["autoFragmentSize"] > 6000:
                 o["autoFragmentSize"] = 0
         sched = draw(st.lists(st.tuples(st.integers(0, 1), st.one_of(st.none(), st.integers(1, 16), st.integers(1, 70000))), max_size=30))
-        return {"seed": draw(st.integers(0, 1 << 30)), "copts": copts, "sopts": sopts, "compress": draw(st.integers(0, 3)) == 0,
+        return {"seed": draw(st.integers(0, 1 << 30)), "copts": copts, "sopts": sopts, "compress": draw(st.sampled_from([False, False, False, False, True, True,
+                                                  {"req_wb": 9}, {"req_wb": 10, "offer_wb": 9}, {"req_wb": 12, "req_nct": True}, {"offer_wb": 10, "offer_nct": True}, {"req_wb": 9, "offer_wb": 12}])),
                 "msgs": [cm, sm], "order": draw(st.lists(st.integers(0, 1), max_size=16)), "schedule": sched}
     return case()
 
